@@ -8,8 +8,8 @@
  * sequence of program points (control flow is deterministic given the decisions; the primitives below
  * make no indirect calls except where stated), so equal decision sequences <=> equal control flow.
  *
- * Self-composition: run 1 records its decisions into ct_tr[], run 2 compares decision number k
- * against ct_tr[k] on the fly (ct_diff).  No hashing: the comparison is exact.
+ * Self-composition: run 1 records its decisions into ct_t1, run 2 into ct_t2.  No hashing: the
+ * comparison is exact.
  *   CT_RUN1(call);  CT_RUN2(call);  CT_SAME("text")
  * asserts: same number of decisions, every decision equal, recorder did not overflow.
  *
@@ -21,29 +21,33 @@
 #ifndef CT_MAX
 #define CT_MAX 4096
 #endif
-unsigned char ct_tr[CT_MAX];
+/* The trace of a run is kept as a CT_MAX-bit shift register plus a decision counter: injective for
+ * every trace of at most CT_MAX decisions (ct_ovf records a longer one).  Shifts by one are wiring and
+ * path merges are multiplexers, so symbolic PUBLIC parameters (lengths) stay cheap. */
+typedef unsigned __CPROVER_bitvector[CT_MAX] ct_reg;
+ct_reg ct_t1, ct_t2;
 unsigned ct_n, ct_n1;
-unsigned char ct_mode, ct_diff, ct_ovf;
-unsigned ct_dirs; /* decisions seen in run 1 that were "taken" (only used by reach witnesses) */
+unsigned char ct_mode, ct_ovf;
 
-/* branch-free on purpose (it is itself exempt from instrumentation; keeps symex linear) */
+/* branch-free on purpose (leak is itself exempt from instrumentation; keeps symex linear) */
 void leak(const char *id) {
-    unsigned char d = (unsigned char)(id[0] == 't');            /* "taken" / "not-taken" */
-    unsigned i = ct_n < CT_MAX ? ct_n : CT_MAX - 1;
+    ct_reg d = (ct_reg)(id[0] == 't');            /* "taken" / "not-taken" */
     ct_ovf |= (unsigned char)(ct_n >= CT_MAX);
-    ct_diff |= (unsigned char)(ct_mode & (ct_tr[i] != d));      /* run 2: compare */
-    ct_tr[i] = ct_mode ? ct_tr[i] : d;                          /* run 1: record */
-    ct_dirs += (unsigned)(!ct_mode & d);
+    ct_t1 = ct_mode ? ct_t1 : ((ct_t1 << 1) | d);   /* run 1 */
+    ct_t2 = ct_mode ? ((ct_t2 << 1) | d) : ct_t2;   /* run 2 */
     ct_n++;
 }
-#define CT_RESET() do { ct_n = 0; ct_n1 = 0; ct_mode = 0; ct_diff = 0; ct_ovf = 0; ct_dirs = 0; } while (0)
-#define CT_RUN1(call) do { CT_RESET(); call; ct_n1 = ct_n; ct_n = 0; ct_mode = 1; } while (0)
-#define CT_RUN2(call) do { call; ct_mode = 0; } while (0)
-#define CT_EQUAL (ct_n == ct_n1 && !ct_diff && !ct_ovf)
+/* plain blocks, no do{}while(0): goto-cc turns `while (0)` into a conditional goto that would itself
+ * be instrumented and counted */
+#define CT_RESET() { ct_n = 0; ct_n1 = 0; ct_mode = 0; ct_ovf = 0; ct_t1 = 0; ct_t2 = 0; }
+#define CT_RUN1(call) { CT_RESET() call; ct_n1 = ct_n; ct_n = 0; ct_mode = 1; }
+#define CT_RUN2(call) { call; ct_mode = 0; }
+#define CT_EQUAL (ct_n == ct_n1 && ct_t1 == ct_t2 && !ct_ovf)
 #define CT_SAME(text) __CPROVER_assert(CT_EQUAL, text)
 
 static int ct_canary_fn(int x) { int r = 0; if (x) { r = 1; } return r; }
-#define CT_CANARY() do { INPUT(int, ct_cx); INPUT(int, ct_cy); \
-    CT_RUN1(ct_canary_fn(ct_cx)); CT_RUN2(ct_canary_fn(ct_cy)); \
-    if (!CT_EQUAL && ct_n1 == 1) REACH("branch instrumentation is live (canary traces can differ)"); } while (0)
+#define CT_CANARY() { INPUT(int, ct_cx); INPUT(int, ct_cy); \
+    CT_RUN1(ct_canary_fn(ct_cx)) CT_RUN2(ct_canary_fn(ct_cy)) \
+    __CPROVER_assert(ct_n1 == 1 && ct_n == 1, "C06 recorder: the one-branch canary yields exactly one decision per run"); \
+    if (ct_t1 != ct_t2) REACH("branch instrumentation is live (canary traces can differ)"); }
 #endif
